@@ -65,7 +65,11 @@ def _wrap_children(cls):
         def make(orig, name):
             @functools.wraps(orig)
             def wrapper(self, *a, **k):
-                if _STATE["depth"] > 0:
+                if _STATE["depth"] > 0 or ".tests." in type(
+                        self._node_reference).__module__:
+                    # nodes of classes defined by the tests themselves
+                    # (test doubles that raise from update hooks) are not
+                    # PSyclone's behaviour
                     return orig(self, *a, **k)
                 _STATE["depth"] += 1
                 try:
